@@ -485,6 +485,19 @@ func (w *World) rulesV4ScoreRest(m *scoreModel, modFn *types.Func, add func(ok b
 	}
 	for _, K := range []string{"1", "2", "36", "4", "5"} {
 		if !usedK[K] {
+			if K == "5" && okLower {
+				// msd5 · (0 / (depth5+1)) is +0 for every vector and the other
+				// terms are products of non-negative factors: the sum, and so
+				// the mean, is the same float64 with or without it. The divisor
+				// still has to count EQ5's next-lower MacroVector (Score.lower).
+				why := "the mean has no term for EQ5: the EQ5 severity distance is the constant 0, so the term is +0 for every vector and the sum is unchanged; the divisor still counts EQ5's next-lower MacroVector (R04.nlm Score.lower)"
+				add(true, "R04.sibling", "Score.term[EQ5]", fd, why)
+				add(true, "R04.nlm", "Score.term[EQ5]", fd, why)
+				for lvl := range v40.Depth["5"] {
+					add(true, "R04.depth", fmt.Sprintf("depth[EQ5=%d]", lvl), fd, "not used: "+why)
+				}
+				continue
+			}
 			add(false, "R04.sibling", "Score.term[EQ"+K+"]", fd, "the mean has no term for EQ"+K)
 		}
 	}
